@@ -118,6 +118,8 @@ fn complex_targets(m: &Model, al: &Alphabet) -> Vec<Target> {
             v.push(Target { kind: TKind::Composite, parts: vec![t("r0", 3, 5), t("r0", 0, 3)] });
             v.push(Target { kind: TKind::Multi, parts: vec![t("r0", 0, 5), TSimple::Res("r0".into())] });
             v.push(Target { kind: TKind::Composite, parts: vec![t("r0", 0, 3), t("r0", 2, 2), t("r0", 3, 5)] });
+            // an end-aligned part listed first (parts are stored in textual order: two begin-aligned neighbours, then the end-aligned one)
+            v.push(Target { kind: TKind::Multi, parts: vec![TSimple::Text { res: "r0".into(), off: Off { b: Cur::E(-2), e: Cur::E(0) } }, t("r0", 0, 2), t("r0", 2, 3)] });
         }
     }
     let live = m.live_anns();
@@ -185,6 +187,8 @@ fn data_templates(m: &Model, al: &Alphabet) -> Vec<Vec<DataT>> {
     if al.rich {
         v.push(vec![new("s1", "k0", Val::S("v".into()), None)]);
         v.push(vec![new("s0", "k0", Val::S("v".into()), None), new("s1", "k0", Val::S("v".into()), None)]);
+        // a run of two items from one set followed by an item from another set
+        v.push(vec![new("s0", "k0", Val::S("v".into()), None), new("s0", "k1", Val::S("w".into()), None), new("s1", "k0", Val::S("v".into()), None)]);
     }
     if let Some(si) = m.set_idx("s0") {
         if let Some(d) = m.sets[si].as_ref().unwrap().data.iter().flatten().find(|d| d.id.is_some()) {
